@@ -22,7 +22,8 @@ func init() {
 	sb.Register("tempvm", tempvmHandler)
 	sb.Assume("C12",
 		"set-based model: Base and Local[i] sets of names per kind; a lookup on temporary VM i resolves n <=> n in Base U Local[i], a lookup on the base VM resolves n <=> n in Base; checked for every VM and every name of the pool after every step, through GetClass / GetInterface / GetFunc / LoadPkg and through class_exists / function_exists / new / call in a script run on that VM",
-		"for a name defined on several VMs only resolvability is asserted, not which definition wins",
+		"for a name defined on several VMs resolvability is asserted, and that the definition a script runs (each class reports the VM it was defined on) was made on the base VM or on the VM running the script, never on another temporary VM; which of those wins is not asserted",
+		"class names are case-insensitive: a class defined under the lower-case spelling of a pool name is the same name for resolution",
 		"classes, interfaces and functions use separate name pools (no cross-kind collisions); shared write-through state (file cache, constants, globals) is intended sharing and not modelled",
 	)
 }
@@ -40,6 +41,18 @@ type tvOp struct {
 	VM   int    `json:"vm"`   // -1 base, 0..3 temp
 	Kind string `json:"kind"` // class | interface | func
 	N    int    `json:"n"`
+	// Lower: a class defined from source under the lower-case spelling of its pool name (class names
+	// are case-insensitive, so it is the same name as far as resolution goes)
+	Lower bool `json:"lower,omitempty"`
+}
+
+// tvWho is what a probing script saw when it instantiated a class and asked it where it was defined.
+type tvWho struct {
+	Step   int  `json:"step"`
+	VM     int  `json:"vm"`
+	N      int  `json:"n"`
+	Lower  bool `json:"lower"` // spelling used by the probe
+	Origin int  `json:"origin"`
 }
 
 type tvCfg struct {
@@ -52,6 +65,7 @@ type tvOut struct {
 	// Steps[s][vm+1] = observation string "api:kind:n=0/1,..." in a fixed order
 	Steps  [][]map[string]bool `json:"steps"`
 	Errors []string            `json:"errors"`
+	Who    []tvWho             `json:"who"`
 }
 
 func tvName(kind string, n int) string {
@@ -89,11 +103,15 @@ func tempvmHandler(req *sb.Req) *sb.Rep {
 	}
 	out := tvOut{}
 	seq := 0
-	src := func(kind string, n, vm int) string {
+	src := func(kind string, n, vm int, lower bool) string {
 		seq++
 		switch kind {
 		case "class":
-			return fmt.Sprintf("<?php\nclass %s { function who() { return 'c%d@%d#%d'; } }\n", tvName(kind, n), n, vm, seq)
+			name := tvName(kind, n)
+			if lower {
+				name = strings.ToLower(name)
+			}
+			return fmt.Sprintf("<?php\nclass %s { function who() { return 'c%d@%d#%d'; } }\n", name, n, vm, seq)
 		case "interface":
 			return fmt.Sprintf("<?php\ninterface %s { function im(); }\n", tvName(kind, n))
 		}
@@ -128,12 +146,16 @@ func tempvmHandler(req *sb.Req) *sb.Rep {
 		return row
 	}
 	runScript := func(v int) map[string]bool {
+		vmIdx := v
 		// probing script on VM v: class_exists / function_exists / new / call
 		var sbd strings.Builder
 		sbd.WriteString("<?php\n")
 		for n := 0; n < cfg.Names; n++ {
 			fmt.Fprintf(&sbd, "__obs('ce:%d', class_exists('%s'));\n__obs('fe:%d', function_exists('%s'));\n", n, tvName("class", n), n, tvName("func", n))
 			fmt.Fprintf(&sbd, "try { $o = new %s(); __obs('new:%d', 1); } catch (Throwable $e) { __obs('!new:%d', 1); }\n", tvName("class", n), n, n)
+			// which definition runs: exact and lower-case spelling (classes added directly have no who())
+			fmt.Fprintf(&sbd, "try { $o = new %s(); __obs('who:%d', $o->who()); } catch (Throwable $e) { }\n", tvName("class", n), n)
+			fmt.Fprintf(&sbd, "try { $o = new %s(); __obs('wholc:%d', $o->who()); } catch (Throwable $e) { }\n", strings.ToLower(tvName("class", n)), n)
 			fmt.Fprintf(&sbd, "try { __obs('call:%d', %s()); } catch (Throwable $e) { __obs('!call:%d', 1); }\n", n, tvName("func", n), n)
 		}
 		res := map[string]bool{}
@@ -169,6 +191,12 @@ func tempvmHandler(req *sb.Req) *sb.Rep {
 					res["new:class:"+k[4:]] = true
 				case strings.HasPrefix(k, "!new:"):
 					res["new:class:"+k[5:]] = false
+				case strings.HasPrefix(k, "who:"), strings.HasPrefix(k, "wholc:"):
+					// s:"c<n>@<vm>#<seq>"
+					var n, org, sq int
+					if _, err := fmt.Sscanf(strings.Trim(strings.TrimPrefix(v, "s:"), "\""), "c%d@%d#%d", &n, &org, &sq); err == nil {
+						out.Who = append(out.Who, tvWho{Step: len(out.Steps), VM: vmIdx, N: n, Lower: strings.HasPrefix(k, "wholc:"), Origin: org})
+					}
 				case strings.HasPrefix(k, "call:"):
 					res["call:func:"+k[5:]] = true
 				case strings.HasPrefix(k, "!call:"):
@@ -188,7 +216,7 @@ func tempvmHandler(req *sb.Req) *sb.Rep {
 			vm := vmOf(op.VM)
 			switch op.Op {
 			case opDefSrc:
-				s := src(op.Kind, op.N, op.VM)
+				s := src(op.Kind, op.N, op.VM, op.Lower && op.Kind == "class")
 				file := fmt.Sprintf("/virtual/def_%d.php", seq)
 				if t, ok := vm.(*runtime.TempVM); ok {
 					p := t.PrepareParse(e.P)
@@ -265,8 +293,15 @@ func c12Judge(pool *sb.Pool, rec *sb.Rec, cfg tvCfg) *failure {
 		local[i] = map[string]bool{}
 	}
 	origin := map[string]int{} // name -> VM where it was first defined (for the key)
+	// once a class was defined under another spelling, whether the pool spelling resolves depends on
+	// case-folding rules the property does not state: only the origin rule below is asserted for it
+	fuzzy := map[string]bool{}
 	for s, op := range cfg.Ops {
 		nm := op.Kind + ":" + fmt.Sprint(op.N)
+		if op.Op == opDefSrc && op.Lower && op.Kind == "class" {
+			fuzzy[nm] = true
+			continue
+		}
 		switch op.Op {
 		case opDefSrc, opDefDirect:
 			if op.VM < 0 {
@@ -291,7 +326,7 @@ func c12Judge(pool *sb.Pool, rec *sb.Rec, cfg tvCfg) *failure {
 				parts := strings.SplitN(k, ":", 3) // api:kind:n
 				nm := parts[1] + ":" + parts[2]
 				want := base[nm] || (v >= 0 && local[v][nm])
-				if got == want {
+				if got == want || fuzzy[nm] {
 					continue
 				}
 				where := "base"
@@ -307,6 +342,20 @@ func c12Judge(pool *sb.Pool, rec *sb.Rec, cfg tvCfg) *failure {
 				}
 				return &failure{Key: fmt.Sprintf("cell:missing:%s:%s:%s", parts[1], parts[0], where), Detail: fmt.Sprintf("after step %d (%v) %s on VM %d does not resolve %s %s although it is defined on %s", s, op, parts[0], v, parts[1], parts[2], map[bool]string{true: "the base VM", false: "this VM"}[base[nm]]), Case: cs}
 			}
+		}
+	}
+	// which definition runs: a VM may only ever run a definition made on the base VM or on itself
+	for _, w := range out.Who {
+		if w.Origin != -1 && w.Origin != w.VM {
+			where := "base"
+			if w.VM >= 0 {
+				where = "temp"
+			}
+			sp := "exact"
+			if w.Lower {
+				sp = "lower-case"
+			}
+			return &failure{Key: fmt.Sprintf("cell:foreign-definition:class:%s-runs-other-temp", where), Detail: fmt.Sprintf("at step %d a script on VM %d instantiated class %d (%s spelling) and ran the definition made on temporary VM %d", w.Step, w.VM, w.N, sp, w.Origin), Case: cs}
 		}
 	}
 	return nil
@@ -354,6 +403,7 @@ func TestC12(t *testing.T) {
 		}
 		alpha = append(alpha, tvOp{Op: opDefDirect, VM: 0, Kind: kind, N: 1})
 	}
+	alpha = append(alpha, tvOp{Op: opDefSrc, VM: 0, Kind: "class", N: 0, Lower: true})
 	alpha = append(alpha, tvOp{Op: opDiscard, VM: 0}, tvOp{Op: opScript, VM: 0}, tvOp{Op: opScript, VM: 1}, tvOp{Op: opScript, VM: -1})
 	maxLen := 3
 	if cfg.Thorough() {
@@ -405,6 +455,9 @@ func TestC12(t *testing.T) {
 			switch rapid.IntRange(0, 9).Draw(rt, "op") {
 			case 0, 1, 2, 3:
 				op.Op = opDefSrc
+				if op.Kind == "class" && rapid.IntRange(0, 2).Draw(rt, "lower") == 0 {
+					op.Lower = true
+				}
 			case 4, 5:
 				op.Op = opDefDirect
 			case 6:
